@@ -991,7 +991,10 @@ func c20Deep(open, close string, n int) []byte {
 }
 
 func genC20(ctx *hx.Ctx, emit func(hx.Case)) {
-	r := ctx.Rng
+	// hx.NewRng(seed) starts the same Weyl sequence `seed` steps further: the streams of consecutive
+	// seeds are shifts of each other and re-synchronise after a few cases. Re-seeding from the first
+	// output puts the streams of different seeds at unrelated offsets (still derived from ctx.Rng only).
+	r := hx.NewRng(ctx.Rng.U64())
 	small := c20Parse(c20Small)
 	base := c20Parse(c20Base)
 	minimal := c20Parse(c20Minimal)
